@@ -537,6 +537,6 @@ void VHarness::check(CheckCtx& c) {
   }
 }
 VHarness h;
-struct Reg { Reg() { register_harness(&h); } } reg;
+struct Reg { Reg() { register_harness(&h); hx::register_reclaimer_probes(); xsim::fn_probe("vyukov_hash_map: do_grow executed", "7do_grow"); xsim::fn_probe("vyukov_hash_map: extension item allocated", "23allocate_extension_item"); xsim::fn_probe("vyukov_hash_map: extension item freed", "19free_extension_item"); xsim::fn_pair_probe("vyukov_hash_map: grow overlaps try_get_value of another thread", "7do_grow", "13try_get_value"); xsim::fn_pair_probe("vyukov_hash_map: grow overlaps lock_bucket of another thread", "7do_grow", "11lock_bucket"); xsim::fn_pair_probe("vyukov_hash_map: two grows overlap", "4growE", "4growE"); xsim::fn_pair_probe("vyukov_hash_map: do_extract overlaps try_get_value", "10do_extract", "13try_get_value"); xsim::fn_pair_probe("vyukov_hash_map: iterator move_to_next_bucket overlaps lock_bucket (writer waits for the iterator)", "19move_to_next_bucket", "11lock_bucket"); xsim::fn_pair_probe("vyukov_hash_map: iterator move_to_next_bucket overlaps grow", "19move_to_next_bucket", "7do_grow"); xsim::fn_pair_probe("vyukov_hash_map: iterator move_to_next_bucket overlaps try_get_value", "19move_to_next_bucket", "13try_get_value"); } } reg;
 } // namespace
 XSIM_MAIN()
